@@ -155,6 +155,35 @@ template<class Tag, class AO, class BO> struct OpI {
 		{ matrix<double, AO> X5 = inv(A, Tag()); c.putMat(X5); }
 	}
 };
+
+// X: the same solution through different expression forms (chained products with an unevaluated solve / inv, solves on a square
+// VIEW into a larger stored matrix).  tools/c02.py demands that the groups agree and that the defining equation holds.
+//   X tag ao bo n m off | A | B | c | b        groups: y1 ; y2 ; y3 ; y4 ; v1 ; v2 ; w1 ; w2 ; V1 ; V2
+template<class Tag, class AO, class BO> struct OpX {
+	static void run(Ctx& c) {
+		std::size_t n = c.size(), m = c.size(), off = c.size();
+		matrix<double, AO> A; c.readMat(A, n, n);
+		matrix<double, BO> B; c.readMat(B, n, m);
+		vector<double> cc; c.readVec(cc, m);
+		vector<double> b; c.readVec(b, n);
+		c.done();
+		// A x = B c, four ways
+		{ vector<double> y1 = prod(solve(A, B, Tag(), left()), cc); c.putVec(y1); } c.sep();                 // rewrite of the chained product
+		{ matrix<double, BO> X = solve(A, B, Tag(), left()); vector<double> y2 = prod(X, cc); c.putVec(y2); } c.sep();   // evaluated first
+		{ vector<double> y3 = (inv(A, Tag()) % B) % cc; c.putVec(y3); } c.sep();                              // explicit-inverse product form
+		{ vector<double> bc = prod(B, cc); vector<double> y4 = solve(A, bc, Tag(), left()); c.putVec(y4); } c.sep();
+		// the same matrix as a square view into a larger stored matrix (leading dimension != n)
+		std::size_t N = n + off + 3;
+		matrix<double, AO> M(N, N, 7.0);
+		for (std::size_t i = 0; i != n; ++i) for (std::size_t j = 0; j != n; ++j) M(off + i, off + j) = A(i, j);
+		{ vector<double> v1 = solve(subrange(M, off, off + n, off, off + n), b, Tag(), left()); c.putVec(v1); } c.sep();
+		{ vector<double> v2 = solve(A, b, Tag(), left()); c.putVec(v2); } c.sep();
+		{ vector<double> w1 = solve(subrange(M, off, off + n, off, off + n), b, Tag(), right()); c.putVec(w1); } c.sep();
+		{ vector<double> w2 = solve(A, b, Tag(), right()); c.putVec(w2); } c.sep();
+		{ matrix<double, BO> V1 = solve(subrange(M, off, off + n, off, off + n), B, Tag(), left()); c.putMat(V1); } c.sep();
+		{ matrix<double, BO> V2 = solve(A, B, Tag(), left()); c.putMat(V2); }
+	}
+};
 template<class AO> struct OpC {
 	static void run(Ctx& c) {
 		std::size_t n = c.size();
@@ -245,6 +274,7 @@ static void dispatch(char letter, Ctx& c) {
 		break;
 	}
 	case 'I': sel[0] = c.word(); sel[1] = c.word(); sel[2] = c.word(); D<OpI, L<KTag, KOri, KOri> >::go(c, sel); break;
+	case 'X': sel[0] = c.word(); sel[1] = c.word(); sel[2] = c.word(); D<OpX, L<KTag, KOri, KOri> >::go(c, sel); break;
 	case 'C': sel[0] = c.word(); D<OpC, L<KOri> >::go(c, sel); break;
 	case 'U': sel[0] = c.word(); D<OpU, L<KOri> >::go(c, sel); break;
 	case 'G': sel[0] = c.word(); D<OpG, L<KOri> >::go(c, sel); break;
